@@ -172,31 +172,51 @@ STATIC_EMITTERS = ("::compile_static_field_initializer", "::compile_static_priva
 
 
 def static_order_rule(fx, scope, op_path, emitters=STATIC_EMITTERS, private_method="::compile_private_method"):
-    """[(fn, kind, ok, span, why)] for the function that compiles a class body"""
+    """[(fn, kind, ok, span, why)] for the function that compiles a class body.  The three emitters may be called directly, or through one
+    dispatcher (a helper or a closure handed to `try_for_each`) that calls all of them for one element."""
     out = []
+
+    def calls_of(g):
+        return [(bi, t) for bi, t in g.calls()]
+
+    def kinds_called(g):
+        return {e for e in emitters for _, t in calls_of(g) if (t[1].get("d") or "").endswith(e)}
+    # dispatchers: bodies (functions or closures) that call all three emitters themselves
+    disp = {p: g for p, g in fx.fns.items() if not g.derived and scope(g) and kinds_called(g) == set(emitters)}
+    # helpers that contain such a closure count as dispatchers too (`elements.iter().try_for_each(|e| match e {..})`)
+    for p, g in list(disp.items()):
+        if g.closure:
+            disp.setdefault(g.parent, fx.fns[g.parent])
     for p, f in sorted(fx.fns.items()):
         if f.derived or f.closure or not scope(f):
             continue
-        calls = list(f.calls())
-        sites = {e: [bi for bi, t in calls if (t[1].get("d") or "").endswith(e)] for e in emitters}
-        if not all(sites.values()):
-            continue
-        allsites = [b for bs in sites.values() for b in bs]
         binds = [bi for bi, sp in op_aggs(f, op_path, "DeclareVar")]
-        pms = [bi for bi, t in calls if (t[1].get("d") or "").endswith(private_method)]
-        span = f.blocks[allsites[0]]["t"][6]
-        # (a) the class name is bound before any static element runs
-        late = [b for b in binds if any(b in f.reachable_from(s) for s in allsites)]
-        out.append((f, "binding-first", bool(binds) and not late, span,
+        pms = [bi for bi, t in f.calls() if (t[1].get("d") or "").endswith(private_method)]
+        if not binds or not pms:
+            continue
+        sites = [bi for bi, t in f.calls() if (t[1].get("d") or "").endswith(tuple(emitters)) or (t[1].get("d") in disp and t[1].get("d") != p)]
+        if not sites:
+            continue
+        span = f.blocks[sites[0]]["t"][6]
+        late = [b for b in binds if any(b in f.reachable_from(s) for s in sites)]
+        out.append((f, "binding-first", not late, span,
                     "a static initialiser or static block is emitted before the class name is declared: `class S { static x = 1; static r = S.x }` throws "
                     "`S is not defined` (and `static inst = new S()`)"))
-        # (b) private methods are in place first
-        latep = [b for b in pms if any(b in f.reachable_from(s) for s in allsites)]
+        latep = [b for b in pms if any(b in f.reachable_from(s) for s in sites)]
         out.append((f, "private-methods-first", not latep, span,
                     "private methods are defined after static elements have run: a static block or initialiser that calls `S.#m()` fails"))
-        # (c) one loop emits all three kinds, so they run in the order they are written
-        loops = L.natural_loops(f)
-        shared = any(all(any(b in body for b in sites[e]) for e in emitters) for h, body in loops)
+        # source order: one body handles all three kinds, in one loop or per element (no loop of its own around the calls)
+        shared = False
+        for q, g in disp.items():
+            if q != p and not any(t[1].get("d") == q or (g.closure and g.parent == p) or (fx.fns.get(t[1].get("d") or "") is not None and q.startswith((t[1].get("d") or "") + "::"))
+                                  for _, t in f.calls()):
+                continue
+            per_kind = {e: [bi for bi, t in g.calls() if (t[1].get("d") or "").endswith(e)] for e in emitters}
+            loops = L.natural_loops(g)
+            in_one = any(all(any(b in body for b in per_kind[e]) for e in emitters) for h, body in loops)
+            in_none = not any(b in body for e in emitters for b in per_kind[e] for h, body in loops)
+            if all(per_kind.values()) and (in_one or (in_none and q != p)):
+                shared = True
         out.append((f, "source-order", shared, span,
                     "static fields, static private fields and static blocks are emitted by separate passes: `static #c = 1; static { S.#c }` runs the block "
                     "before the field exists"))
